@@ -67,7 +67,20 @@ def stepLine (fx : Fixes) (st : DState) (line : String) : DState × String :=
       | some "FEATSET" => inp ++ ["FIXED", if fx.f10 then "1" else "0"]
       | some "MECAB" => if fx.f12 then inp ++ ["FIXED", "1"] else inp
       | _ => inp
-    (st, s!"extract {id} MODEL {Extractor.handle inp}")
+    let model := Extractor.handle inp
+    -- MECAB: when the generated files differ from the model's, compare what they MEAN: the defining
+    -- feature-pair sums of every id pair (the model's are the model.def sums by `C20.mecab_cost_eq_sum`)
+    let implToks := rest.dropWhile (· ≠ "IMPL") |>.drop 1 |>.takeWhile (· ≠ "##")
+    let p := match inp.head?, implToks, Wire.tokens model with
+      | some "MECAB", ["ok", r, l, c], ["ok", r', l', c'] =>
+        if r == r' && l == l' && c == c' then "1" else
+        match Wire.bytesOfHex r, Wire.bytesOfHex l, Wire.bytesOfHex c,
+              Wire.bytesOfHex r', Wire.bytesOfHex l', Wire.bytesOfHex c' with
+        | some a, some b, some d, some a', some b', some d' =>
+          if Conn.spec a b d == Conn.spec a' b' d' then "1" else "0"
+        | _, _, _, _, _, _ => "n/a"
+      | _, _, _ => "n/a"
+    (st, s!"extract {id} MODEL {model} P MECABCOST={p}")
   | "train" :: id :: rest => (st, s!"train {id} MODEL {Trainer.handle (input rest)}")
   | "corpus" :: id :: rest => (st, s!"corpus {id} MODEL {Corpus.handle (input rest)}")
   | s :: id :: _ => (st, s!"{s} {id} MODEL unknown-stream")
